@@ -125,6 +125,9 @@ pub unsafe extern "C" fn poll(fds: *mut libc::pollfd, nfds: libc::nfds_t, timeou
 
 #[no_mangle]
 pub unsafe extern "C" fn read(fd: c_int, buf: *mut c_void, n: size_t) -> ssize_t {
+    if let Some(r) = crate::trace::trace_read(fd, buf, n) {
+        return r;
+    }
     let t = ACTIVE_TID.load(Ordering::Relaxed);
     if t != 0 {
         let sl = std::slice::from_raw_parts_mut(buf as *mut u8, n);
@@ -142,6 +145,9 @@ pub unsafe extern "C" fn read(fd: c_int, buf: *mut c_void, n: size_t) -> ssize_t
 
 #[no_mangle]
 pub unsafe extern "C" fn write(fd: c_int, buf: *const c_void, n: size_t) -> ssize_t {
+    if let Some(r) = crate::trace::trace_write(fd, buf, n) {
+        return r;
+    }
     let t = ACTIVE_TID.load(Ordering::Relaxed);
     if t != 0 {
         let sl = std::slice::from_raw_parts(buf as *const u8, n);
@@ -159,6 +165,9 @@ pub unsafe extern "C" fn write(fd: c_int, buf: *const c_void, n: size_t) -> ssiz
 
 #[no_mangle]
 pub unsafe extern "C" fn close(fd: c_int) -> c_int {
+    if let Some(r) = crate::trace::trace_close(fd) {
+        return r;
+    }
     let t = ACTIVE_TID.load(Ordering::Relaxed);
     if t != 0 {
         match ask(|k| k.close(fd)) {
@@ -175,6 +184,9 @@ pub unsafe extern "C" fn close(fd: c_int) -> c_int {
 
 #[no_mangle]
 pub unsafe extern "C" fn waitpid(pid: pid_t, status: *mut c_int, flags: c_int) -> pid_t {
+    if let Some(r) = crate::trace::trace_waitpid(pid, status, flags) {
+        return r;
+    }
     match ask(|k| k.waitpid(pid, flags)) {
         Ans::Pass => real_waitpid(pid, status, flags),
         Ans::Ret((p, st)) => {
